@@ -71,6 +71,9 @@ def hermitian_cases(rng, n, quick):
         out.append((f'spectrum-{nm}', qx.mm(qx.mm(U, Dm), qx.herm(U)), sp))
     return out
 
+def herm_with(rng, n):
+    G = qx.rand_int(rng, n, n, -3, 3); return qx.add(G, qx.herm(G))
+
 def run(ctx):
     cm.setup_impl_path()
     for b in cm.audit(cm.coq_sources() + [os.path.join(cm.ROOT, 'props', 'C08.v')]): ctx.broken.append('audit: ' + b)
@@ -183,6 +186,13 @@ def run(ctx):
         with quiet(): tri.tridiagonalize(qx.to_np([[Q(2)]]))
         viol('C08:reject:1x1:tridiagonalize', 'tridiagonalize accepted a 1 x 1 matrix (documented minimum is 2 x 2)', {'n': 1})
     except ValueError: pass
+    _H = qx.to_np(herm_with(rng, 3))
+    def _tri(X):
+        with quiet(): return tri.tridiagonalize(X)
+    def _eig(X):
+        with quiet(): return eig.quaternion_eigendecomposition(X)[0]
+    cm.layout_sweep(ctx, qx, 'C08', 'tridiagonalize', _tri, _H, {'n': 3})
+    cm.layout_sweep(ctx, qx, 'C08', 'quaternion_eigendecomposition(values)', _eig, _H, {'n': 3})
     # ---- correspondence at the fixed-point instance
     for name, terms, fn, shard in (('hv', hterms, 'check_hv', 60), ('tri', tterms, 'check_tri', 6)):
         res = cm.run_cases(ctx, 'cases_' + name, HEADER, terms, fn, shard=shard, timeout=900)
